@@ -5,6 +5,8 @@ package main
 
 import (
 	"fmt"
+	"os"
+	"path/filepath"
 	"regexp"
 	"runtime/debug"
 	"sort"
@@ -115,6 +117,7 @@ type exploreResult struct {
 	sampleEvents [][]string
 	solverQueries int
 	solverTime  time.Duration
+	diffSampled, diffAgreed, diffOther, diffBad int
 	wall        time.Duration
 	truncated   bool // path budget or timeout exhausted with work left
 	distinctSigs map[string]bool
@@ -288,6 +291,7 @@ func explore(p *program, spec *harnessSpec, nworkers int, seed int64) *exploreRe
 		if err != nil {
 			panic(err)
 		}
+		s.diffEvery, s.diffMax = diffSampling()
 		workers[i] = &worker{id: i, p: p, solver: s, intrinsicsUsed: map[string]int{}, sharedGlobals: map[*ssa.Global]*object{}, sharedInit: map[*ssa.Package]bool{}}
 	}
 	for i := 0; i < nworkers; i++ {
@@ -377,6 +381,14 @@ func explore(p *program, spec *harnessSpec, nworkers int, seed int64) *exploreRe
 		if w.solver.errors > 0 {
 			res.incomplete = append(res.incomplete, fmt.Sprintf("solver reported %d error line(s)", w.solver.errors))
 		}
+		res.diffSampled += w.solver.diffSampled
+		res.diffAgreed += w.solver.diffAgreed
+		res.diffOther += w.solver.diffOther
+		if w.solver.diffBad > 0 {
+			res.diffBad += w.solver.diffBad
+			res.incomplete = append(res.incomplete, fmt.Sprintf("solver disagreement: %d sampled queries decided differently by the second solver", w.solver.diffBad))
+			_ = os.WriteFile(filepath.Join(os.TempDir(), "symgo_disagreement_"+spec.Name+".smt2"), []byte(w.solver.diffBadScript), 0o644)
+		}
 		w.solver.close()
 	}
 	if len(jobs) > 0 {
@@ -417,4 +429,18 @@ func exploreFixed(p *program, spec *harnessSpec, v *violationRec) *pathResult {
 		}
 	}
 	return w.runPath(spec, cfg, prefix)
+}
+
+// diffSampling: every n-th decided solver query of a worker is re-checked by a second solver,
+// at most max per worker (SYMGO_DIFF=n[,max]; default 1 in 400, at most 8 per worker; 0 = off).
+func diffSampling() (every, max int) {
+	every, max = 400, 8
+	if v := os.Getenv("SYMGO_DIFF"); v != "" {
+		a, b, _ := strings.Cut(v, ",")
+		fmt.Sscan(a, &every)
+		if b != "" {
+			fmt.Sscan(b, &max)
+		}
+	}
+	return
 }
